@@ -15,6 +15,7 @@ import (
 	"encoding/xml"
 	"fmt"
 	"math/rand"
+	"sort"
 	"strconv"
 	"strings"
 	"sync"
@@ -825,7 +826,21 @@ func runStress(c *ev.Ctx, id string, sc stressCfg, seed int64) {
 					w := ws.mk(r.Intn(3) == 0)
 					op.In = opIn{Kind: "put", W: w.id, Name: "PUT-to-be-refused"}
 					op.Call = clk.now()
-					resp = cl.PutObject("stress", key, w.body, append(w.hdr(), "X-Amz-Object-Lock-Legal-Hold", "ON")...)
+					if r.Intn(2) == 0 {
+						resp = cl.PutObject("stress", key, w.body, append(w.hdr(), "X-Amz-Object-Lock-Legal-Hold", "ON")...)
+					} else {
+						// ... or one that carries more data than it declared (the failure is met while the body is stored)
+						op.In.Name = "PUT-to-be-refused(longer-than-declared)"
+						dl := int64(len(w.body) / 2)
+						h := s3c.H{}
+						for i, kv := 0, w.hdr(); i+1 < len(kv); i += 2 {
+							if !strings.HasPrefix(kv[i], "X-Amz-Checksum") {
+								h = append(h, [2]string{kv[i], kv[i+1]})
+							}
+						}
+						resp = cl.Do(&s3c.Req{Method: "PUT", Path: s3c.ObjPath("stress", key), Body: w.body, Header: h,
+							Stream: &s3c.Stream{Mode: s3c.StreamSigned, ChunkSizes: []int{64 << 10}, DecodedLen: &dl}})
+					}
 					op.Ret = clk.now()
 					op.Out = opOut{Ack: resp.OK(), Unk: resp.Err != nil}
 				case x < 35:
@@ -987,6 +1002,165 @@ func runStress(c *ev.Ctx, id string, sc stressCfg, seed int64) {
 	c.Add("stress_overlapping_pairs", overlaps)
 }
 
+// ---- lane L: overlapping large uploads in a process that has seen uploads fail -----------------------------
+//
+// "every successful GET returns the complete body of exactly one write together with that same write's ETag": the
+// body transfers of several multi-MiB uploads overlap for milliseconds, in a gateway process that first had uploads
+// fail in every way a client can provoke while the body is being stored (more data than declared, a dropped
+// connection, a wrong digest). Every acknowledged upload must carry the ETag of its own data, every read must be
+// the whole of one write, and after each round the key holds one of the writes acknowledged in that round.
+func runLarge(c *ev.Ctx, id string, noOTmp bool, seed int64) {
+	env, err := fx.New("c05l", gw.Config{NoOTmp: noOTmp}, 1)
+	if err != nil {
+		c.Inconclusive("gateway start: " + err.Error())
+		return
+	}
+	defer env.Close()
+	cl := env.Client(0)
+	if r := cl.CreateBucket("large"); !r.OK() {
+		c.Inconclusive("create bucket: " + r.String())
+		return
+	}
+	r := rand.New(rand.NewSource(seed))
+	ws := newWrites()
+	mkLarge := func() *write {
+		w := ws.mk(true)
+		ws.mu.Lock()
+		delete(ws.byMD5, w.md5)
+		delete(ws.byCRC, w.crc)
+		n := 2<<20 + r.Intn(3<<20)
+		b := make([]byte, n)
+		rand.New(rand.NewSource(int64(w.id)*7919 + seed)).Read(b)
+		copy(b, []byte(fmt.Sprintf("w%d|", w.id)))
+		sum := md5.Sum(b)
+		w.body, w.md5, w.crc = b, hex.EncodeToString(sum[:]), s3c.Checksum("crc32", b)
+		ws.byMD5[w.md5] = w
+		ws.byCRC[w.crc] = w
+		ws.mu.Unlock()
+		return w
+	}
+	plain := func(w *write) s3c.H {
+		return s3c.H{{"X-Amz-Meta-Wid", strconv.Itoa(w.id)}, {"Content-Type", w.ctype}}
+	}
+	cfgName := fmt.Sprintf("L|otmp=%v", !noOTmp)
+	fails := map[string]func(key string) *s3c.Resp{
+		"longer-than-declared(aws-chunked)": func(key string) *s3c.Resp {
+			w := ws.mk(true)
+			dl := int64(len(w.body) / 2)
+			return cl.Do(&s3c.Req{Method: "PUT", Path: s3c.ObjPath("large", key), Body: w.body, Header: plain(w),
+				Stream: &s3c.Stream{Mode: s3c.StreamSigned, ChunkSizes: []int{64 << 10}, DecodedLen: &dl}})
+		},
+		"longer-than-declared(unsigned-trailer)": func(key string) *s3c.Resp {
+			w := ws.mk(true)
+			dl := int64(100)
+			return cl.Do(&s3c.Req{Method: "PUT", Path: s3c.ObjPath("large", key), Body: w.body, Header: plain(w),
+				Stream: &s3c.Stream{Mode: s3c.StreamUnsignTr, ChunkSizes: []int{64 << 10}, TrailerName: "x-amz-checksum-crc32", DecodedLen: &dl}})
+		},
+		"no-content-length": func(key string) *s3c.Resp {
+			w := ws.mk(true)
+			return cl.Do(&s3c.Req{Method: "PUT", Path: s3c.ObjPath("large", key), Body: w.body, Header: plain(w), NoContentLength: true, FreshConn: true, Watchdog: 10 * time.Second})
+		},
+		"wrong-content-md5": func(key string) *s3c.Resp {
+			w := ws.mk(true)
+			return cl.PutObject("large", key, w.body, "Content-MD5", s3c.MD5B64([]byte("other")), "X-Amz-Meta-Wid", strconv.Itoa(w.id), "Content-Type", w.ctype)
+		},
+		"connection-closed-mid-body": func(key string) *s3c.Resp {
+			w := ws.mk(true)
+			return cl.Do(&s3c.Req{Method: "PUT", Path: s3c.ObjPath("large", key), Body: w.body, Header: plain(w), CloseAfter: len(w.body) / 2, FreshConn: true, Watchdog: 10 * time.Second})
+		},
+	}
+	names := make([]string, 0, len(fails))
+	for n := range fails {
+		names = append(names, n)
+	}
+	sort.Strings(names)
+	keys := []string{"big-0", "big-1"}
+	rounds := c.Pick(5, 14)
+	for round := 0; round < rounds; round++ {
+		// one or two uploads that fail (round 0: none - the same overlapping uploads in a process that saw no failure)
+		var failed []string
+		if round > 0 {
+			for i := 0; i < 1+r.Intn(2); i++ {
+				n := names[r.Intn(len(names))]
+				resp := fails[n]("failed-upload")
+				c.Eval(1)
+				if resp.OK() {
+					// (an upload that sends more than it declared may be cut at the declared length by the server; it is
+					// then simply a shorter acknowledged write to another key and of no concern here)
+					c.Observe("lane L: upload meant to fail was acknowledged: " + n)
+				}
+				failed = append(failed, n)
+			}
+		}
+		uploads := 3 + r.Intn(3)
+		type res struct {
+			w    *write
+			key  string
+			resp *s3c.Resp
+		}
+		out := make([]res, uploads)
+		var wg sync.WaitGroup
+		for i := range out {
+			out[i] = res{w: mkLarge(), key: keys[r.Intn(len(keys))]}
+			wg.Add(1)
+			go func(i int) {
+				defer wg.Done()
+				o := &out[i]
+				o.resp = cl.Do(&s3c.Req{Method: "PUT", Path: s3c.ObjPath("large", o.key), Body: o.w.body, Header: plain(o.w), PayloadHash: s3c.Unsigned, FreshConn: true})
+			}(i)
+		}
+		wg.Wait()
+		c.Eval(uploads)
+		acked := map[string]map[int]bool{}
+		det := map[string]any{"config": cfgName, "round": round, "failed_uploads_before": failed, "overlapping_uploads": uploads}
+		for _, o := range out {
+			if o.resp.Err != nil {
+				c.Inconclusive("lane L: transport error on a large upload")
+				return
+			}
+			if !o.resp.OK() {
+				det["answer"] = o.resp.String()
+				c.Violation("L:correct-upload-refused", id, det)
+				continue
+			}
+			if acked[o.key] == nil {
+				acked[o.key] = map[int]bool{}
+			}
+			acked[o.key][o.w.id] = true
+			if et := strings.Trim(o.resp.Header.Get("Etag"), `"`); et != o.w.md5 {
+				det["write"] = o.w.id
+				det["etag_acknowledged"] = et
+				det["etag_of_the_data_sent"] = o.w.md5
+				c.Violation("L:upload-acknowledged-with-the-etag-of-other-data", id, det)
+			}
+		}
+		for _, k := range keys {
+			if acked[k] == nil {
+				continue
+			}
+			g := cl.GetObject("large", k)
+			ro := ws.judgeRead(g, false)
+			c.Eval(1)
+			switch {
+			case ro.Refused || ro.Wid == 0:
+				det["get"] = g.String()
+				c.Violation("L:acknowledged-upload-not-readable", id, det)
+			case ro.Wid == -1:
+				det["explain"] = ro.Torn
+				c.Violation("L:torn-read", id, det)
+			case !acked[k][ro.Wid]:
+				det["read_write"] = ro.Wid
+				c.Violation("L:key-holds-none-of-the-writes-acknowledged-last", id, det)
+			default:
+				c.Distinct(fmt.Sprintf("%s|after=%s|uploads=%d", cfgName, strings.Join(failed, "+"), uploads))
+			}
+		}
+	}
+	if i, cr := env.Dead(); cr != nil {
+		c.Violation("L:gateway-died:"+cr.TopFrame, id, map[string]any{"gateway": i, "crash": cr.Message})
+	}
+}
+
 func tailOps(h []histOp, n int) []histOp {
 	if len(h) > n {
 		return h[len(h)-n:]
@@ -1031,6 +1205,18 @@ func Run(c *ev.Ctx) int {
 			defer func() { <-sem }()
 			runStress(c, id, sc, seed)
 		}()
+	}
+	wg.Wait()
+	for i, noOTmp := range []bool{false, true} {
+		id := fmt.Sprintf("L/%d", i)
+		if !c.Want(id) {
+			continue
+		}
+		wg.Add(1)
+		go func(noOTmp bool) {
+			defer wg.Done()
+			runLarge(c, id, noOTmp, r.Int63n(1<<30))
+		}(noOTmp)
 	}
 	wg.Wait()
 	if c.Thorough() {
